@@ -521,4 +521,28 @@ theorem run_erase (env : Env) (tot : Total env) : ∀ (ops : List Op) (a b : St)
         rw [hf, hrb, hra, ih, hs.1]
         simp only [eraseToks, hop, Bool.false_eq_true, if_false]
 
+/-! ### variable mocks -/
+
+theorem varStep_sim (a b : VarSt) (hc : a.cur = b.cur) (ho : a.origin = b.origin) (op : VarOp) :
+    (varStep a op).2 = (varStep b op).2 ∧ (varStep a op).1.cur = (varStep b op).1.cur ∧ (varStep a op).1.origin = (varStep b op).1.origin := by
+  have hset : ∀ v, (varDoSet a v).cur = (varDoSet b v).cur ∧ (varDoSet a v).origin = (varDoSet b v).origin := by
+    intro v
+    simp only [varDoSet, hc, ho]
+    exact ⟨trivial, trivial⟩
+  cases op with
+  | set v => exact ⟨rfl, hset v⟩
+  | apply v => exact ⟨rfl, hset v⟩
+  | reset => exact ⟨rfl, by simp only [varStep, hc, ho], rfl⟩
+  | read => exact ⟨by simp only [varStep, hc], hc, ho⟩
+  | dbg d => cases d <;> exact ⟨rfl, hc, ho⟩
+
+theorem varRun_sim : ∀ (ops : List VarOp) (a b : VarSt), a.cur = b.cur → a.origin = b.origin →
+    (varRun a ops).1 = (varRun b ops).1 ∧ (varRun a ops).2.cur = (varRun b ops).2.cur
+  | [], a, b, hc, _ => ⟨rfl, hc⟩
+  | op :: ops, a, b, hc, ho => by
+    have hs := varStep_sim a b hc ho op
+    have ih := varRun_sim ops _ _ hs.2.1 hs.2.2
+    simp only [varRun]
+    exact ⟨by rw [hs.1, ih.1], ih.2⟩
+
 end C19L
